@@ -1,26 +1,201 @@
 /-
-C15 — property theorems (every `theorem` in this module is a proof obligation, axiom-audited by bin/check).
+C15 — property theorems (every `theorem` in this module is a proof obligation; `bin/check C15` audits each one's
+axioms). Helper lemmas live in Kap/Proofs/C15*.lean.
+
+Statement (properties.jsonl): after any sequence of create, put, replace and delete operations (each atomic: a
+failed or rejected operation leaves no trace), get returns the last value stored under an ID, every index lists
+exactly the stored objects, each once, in index order, pagination with offset/limit and glob patterns returns the
+corresponding slice of that list, and reopening the store yields the same contents.
+
+What is proved for ALL histories / states / fault positions (no size bound), about the model transcribed from
+indexed.go / storage.go / bolt.go:
+  * `failed_op_no_trace`          any operation that reports an error (rejection, fault at ANY write, failed commit)
+                                  leaves the committed bucket unchanged;
+  * `keys_faithful_on_wf`         on well-formed configurations/objects `path.Join`'s cleaning is the identity and the
+                                  key layout is injective (data vs index area, index vs index, value vs value);
+  * `step_refines_map`            one API call refines one step of the abstract map (result codes by the exists /
+                                  replace rules, only an injected fault can make it fail otherwise) and keeps data
+                                  area and index area in bijection with the map;
+  * `history_refines_map`, `get_returns_last_stored`, `index_bijection`   the same for every history;
+  * `pagination_exact`, `nolimit_exact`   `DoListFunc` = filter ▸ drop offset ▸ take limit.
+Stated, not proved (see the `_stmt` definitions at the end): the listing ORDER theorem (prefix scan of the sorted
+bucket = the stored objects sorted by (value, id)) and `Rebuild` being the identity on reachable states — both are
+checked on every run by the spec oracle on the implementation's output and by correspondence.
 -/
-import Kap.Spec.C15
+import Kap.Proofs.C15Keys
 namespace Kap.Props.C15
 open Kap.C15
 
-theorem update_error_keeps (kv : KV) (f : Fault) (g : Tx → Except Err Tx) (e : Err)
-    (h : (update kv f g).2 = some e) : (update kv f g).1 = kv := by
-  unfold update at h ⊢
-  split
-  · rfl
-  · split
-    · rfl
-    · rename_i heq hne
-      rw [heq] at h
-      simp [hne] at h
+/-! ### Atomicity -/
 
-/-- **A failed or rejected operation leaves no trace**: whatever the operation, whatever the configuration and
+/-- **A failed or rejected operation leaves no trace**: whatever the operation, the configuration, the state, and
 wherever the fault strikes (any write position, or the commit), an operation that reports an error leaves the
 committed bucket exactly as it was. -/
 theorem failed_op_no_trace (c : Cfg) (kv : KV) (op : Op) (e : Err)
     (h : (step c kv op).2 = some e) : (step c kv op).1 = kv := by
   cases op <;> first | exact update_error_keeps _ _ _ _ h | rfl
+
+/-- Non-vacuity: a replace whose 2nd write (the new index entry) fails after the data key was already rewritten. -/
+example :
+    let c : Cfg := { pfx := "p".toList, indexes := [⟨"id".toList, true, .id⟩, ⟨"grp".toList, false, .grp⟩] }
+    let kv := run c [.create ⟨"a".toList, "g".toList, [], "1".toList⟩ .none]
+    (step c kv (.replace ⟨"a".toList, "h".toList, [], "2".toList⟩ (.write 1))).2 = some .io := by decide
+
+/-! ### The key layout -/
+
+/-- **On well-formed configurations and objects the key layout is faithful** (`path.Join`'s cleaning changes
+nothing; data keys, index keys of different indexes, of different values and — for non-unique indexes — of
+different ids never coincide). -/
+theorem keys_faithful_on_wf (c : Cfg) (hc : c.wf = true) : KeysOK c (fun o => c.wfObj o = true) :=
+  keysOK_of_wf c hc
+
+/-! ### Refinement of the abstract map -/
+
+/-- **One API call** (create / put / replace / delete / reopen, with any fault) from a state in which data area and
+index area are in bijection with the abstract map `m`: the reported result is admissible for the abstract map
+(`specStep`: "exists" / "missing" exactly by the rules, `io` only when a fault was injected, no success when the
+commit fails) and the bijection holds again for the abstract successor. Unique secondary indexes are allowed as
+long as the abstract successor has distinct values on them (`UniqueOK`). -/
+theorem step_refines_map (c : Cfg) (hc : c.wf = true) (kv : KV) (m : Abs)
+    (hi : Inv c (fun o => c.wfObj o = true) kv m) (op : Op) (hnr : op.isRebuild = false)
+    (hwf : ∀ o, op.obj? = some o → c.wfObj o = true) (hu : UniqueOK c (specApply m op).1) :
+    ∃ m', specStep m op (step c kv op).2 = some m' ∧
+      Inv c (fun o => c.wfObj o = true) (step c kv op).1 m' :=
+  step_refines (keysOK_of_wf c hc) hi op hnr hwf hu
+
+/-- **Every history** of create / put / replace / delete / reopen with well-formed objects, with a fault injected
+at any write or commit of any operation, on a well-formed configuration whose unique indexes are on the id:
+all results are admissible for the abstract map and the final bucket is in bijection with the final map. -/
+theorem history_refines_map (c : Cfg) (hc : c.wf = true) (hid : c.uniqueOnIdOnly = true) (ops : List Op)
+    (hops : ∀ op ∈ ops, op.isRebuild = false ∧ ∀ o, op.obj? = some o → c.wfObj o = true) :
+    ∃ m, absRun c ops [] [] = some m ∧ Inv c (fun o => c.wfObj o = true) (run c ops) m :=
+  history_refines (keysOK_of_wf c hc) hid ops [] [] (inv_empty c _) hops
+
+/-- **get returns the last value stored under an ID** — after every such history. -/
+theorem get_returns_last_stored (c : Cfg) (hc : c.wf = true) (hid : c.uniqueOnIdOnly = true) (ops : List Op)
+    (hops : ∀ op ∈ ops, op.isRebuild = false ∧ ∀ o, op.obj? = some o → c.wfObj o = true) :
+    ∃ m, absRun c ops [] [] = some m ∧
+      ∀ id, get c (run c ops) id = match absGet m id with | some o => .ok o | none => .error .missing := by
+  obtain ⟨m, hr, hi⟩ := history_refines_map c hc hid ops hops
+  exact ⟨m, hr, fun id => getTx_spec (keysOK_of_wf c hc) hi id⟩
+
+/-- **Index entries and stored objects are in bijection** — after every such history: every stored object has its
+entry (holding its id) in every index, every key of the bucket is the data key of a stored object or the index
+entry of a stored object, and two (index, object) pairs never share an entry. -/
+theorem index_bijection (c : Cfg) (hc : c.wf = true) (hid : c.uniqueOnIdOnly = true) (ops : List Op)
+    (hops : ∀ op ∈ ops, op.isRebuild = false ∧ ∀ o, op.obj? = some o → c.wfObj o = true) :
+    ∃ m, absRun c ops [] [] = some m ∧
+      (∀ o ∈ m, ∀ i ∈ c.indexes, kvGet (run c ops) (ikey c i o) = some (.ref o.id)) ∧
+      (∀ k v, kvGet (run c ops) k = some v →
+        (∃ o ∈ m, k = dataKey c o.id ∧ v = .obj o) ∨ (∃ o ∈ m, ∃ i ∈ c.indexes, k = ikey c i o ∧ v = .ref o.id)) ∧
+      (∀ a ∈ m, ∀ b ∈ m, ∀ i ∈ c.indexes, ∀ j ∈ c.indexes, ikey c i a = ikey c j b → i = j ∧ a = b) := by
+  obtain ⟨m, hr, hi⟩ := history_refines_map c hc hid ops hops
+  have hk := keysOK_of_wf c hc
+  refine ⟨m, hr, hi.index, hi.only, ?_⟩
+  intro a ha b hb i hi' j hj he
+  obtain ⟨hij, hsel, hnu⟩ := hk.index_inj i j a b hi' hj (hi.wf a ha) (hi.wf b hb) he
+  refine ⟨hij, hi.ids a ha b hb ?_⟩
+  cases hun : i.unique with
+  | false => exact hnu hun
+  | true => exact hi.uniq i hi' hun a ha b hb hsel
+
+/-- Non-vacuity of the hypotheses: the default configuration is well-formed, and a history with a replace that
+moves the object to another group, a rejected create, a faulted put and a delete satisfies the premises; the
+abstract run is defined. -/
+example :
+    let c : Cfg := { pfx := "p".toList, indexes := [⟨"id".toList, true, .id⟩, ⟨"grp".toList, false, .grp⟩] }
+    let ops : List Op := [.create ⟨"a".toList, "g".toList, [], "1".toList⟩ .none,
+      .create ⟨"ab".toList, "g".toList, [], "2".toList⟩ .none,
+      .replace ⟨"a".toList, "h".toList, [], "3".toList⟩ .none,
+      .create ⟨"a".toList, "g".toList, [], "4".toList⟩ .none,
+      .put ⟨"b".toList, "g".toList, [], "5".toList⟩ (.write 1), .delete "ab".toList .none, .reopen]
+    c.wf = true ∧ c.uniqueOnIdOnly = true ∧
+      (ops.all (fun op => !op.isRebuild && (match op.obj? with | some o => c.wfObj o | none => true))) = true ∧
+      (absRun c ops [] []).isSome = true ∧ (run c ops).length = 3 := by decide
+
+/-! ### Pagination -/
+
+/-- **`DoListFunc` returns exactly the requested slice**: the matches, minus the first `offset`, cut to `limit`
+(for every list, match function, offset and limit). -/
+theorem pagination_exact (l : List Str) (m : Str → Bool) (offset limit : Nat) :
+    doListFunc l m (offset : Int) (limit : Int) = ((l.filter m).drop offset).take limit :=
+  doListFunc_eq l m offset limit
+
+/-- … and with the limit that `list` substitutes for a negative one (`len(ids)`) nothing is cut. -/
+theorem nolimit_exact (l : List Str) (m : Str → Bool) (offset : Nat) :
+    doListFunc l m (offset : Int) (l.length : Int) = (l.filter m).drop offset := by
+  rw [doListFunc_eq]
+  apply List.take_of_length_le
+  have := List.length_filter_le m l
+  simp; omega
+
+/-! ### Counterexamples: where the code violates the property -/
+
+/-- `r` is the successful answer `v`. -/
+def answers {α : Type} [DecidableEq α] (r : Except Err α) (v : α) : Bool :=
+  match r with | .ok x => decide (x = v) | .error _ => false
+
+def cfg2 : Cfg := { pfx := "p".toList, indexes := [⟨"id".toList, true, .id⟩, ⟨"grp".toList, false, .grp⟩] }
+def cfg3 : Cfg := { pfx := "p".toList, indexes := [⟨"id".toList, true, .id⟩, ⟨"tag".toList, true, .tag⟩] }
+
+/-- Finding `path-clean-keys`: an object with ID "." (an accepted task ID) is stored and `Get`-able, but `indexKey`
+cleans "/p/indexes/id/." to "/p/indexes/id", so it is missing from the listing of the id index
+(replayed on the real code by corpus/C15/finding-path-clean-keys.ops). -/
+theorem dot_id_is_stored_but_not_listed :
+    let kv := run cfg2 [.create ⟨".".toList, "g".toList, [], "1".toList⟩ .none]
+    answers (get cfg2 kv ".".toList) ⟨".".toList, "g".toList, [], "1".toList⟩ = true ∧
+    answers (list cfg2 kv "id".toList [] 0 (-1) false) [] = true := by decide
+
+/-- Finding `path-clean-keys`, collision: ID "a/../b" takes over the id-index entry of "b"; deleting it removes
+that entry, after which "b" is stored but not listed. -/
+theorem cleaned_ids_collide :
+    let kv := run cfg2 [.create ⟨"b".toList, "g".toList, [], "1".toList⟩ .none,
+                        .create ⟨"a/../b".toList, "g".toList, [], "2".toList⟩ .none, .delete "a/../b".toList .none]
+    (get cfg2 kv "b".toList).toBool = true ∧ answers (list cfg2 kv "id".toList [] 0 (-1) false) [] = true := by decide
+
+/-- Finding `unique-index-no-check`: a second object with the same value of a unique index takes over the entry;
+the first object is stored but no longer listed on that index. -/
+theorem unique_index_entry_taken_over :
+    let kv := run cfg3 [.create ⟨"a".toList, [], "t".toList, "1".toList⟩ .none,
+                        .create ⟨"b".toList, [], "t".toList, "2".toList⟩ .none]
+    (get cfg3 kv "a".toList).toBool = true ∧
+    answers (list cfg3 kv "tag".toList [] 0 (-1) false) [⟨"b".toList, [], "t".toList, "2".toList⟩] = true := by decide
+
+/-- Finding `index-order-separator`: values "g" and "g.1" of a non-unique index: the entry keys are "g/a" and
+"g.1/b", and '.' sorts below '/', so the object of the LARGER value is listed first. -/
+theorem separator_breaks_value_order :
+    let kv := run cfg2 [.create ⟨"a".toList, "g".toList, [], "1".toList⟩ .none,
+                        .create ⟨"b".toList, "g.1".toList, [], "2".toList⟩ .none]
+    answers (list cfg2 kv "grp".toList [] 0 (-1) false)
+      [⟨"b".toList, "g.1".toList, [], "2".toList⟩, ⟨"a".toList, "g".toList, [], "1".toList⟩] = true ∧
+    keyLt ("g".toList, "a".toList) ("g.1".toList, "b".toList) = true := by decide
+
+/-- The defect repaired by commit 7ff1085: with a negative limit the `list` of snapshot ef0888e ignored pattern
+and offset (here: pattern "b", offset 1 — the correct answer is the empty page). -/
+theorem listOld_nolimit_ignores_pattern_offset :
+    let kv := run cfg2 [.create ⟨"a".toList, "g".toList, [], "1".toList⟩ .none,
+                        .create ⟨"b".toList, "g".toList, [], "2".toList⟩ .none]
+    answers (listOld cfg2 kv "id".toList "b".toList 1 (-1) false)
+      [⟨"a".toList, "g".toList, [], "1".toList⟩, ⟨"b".toList, "g".toList, [], "2".toList⟩] = true ∧
+    answers (list cfg2 kv "id".toList "b".toList 1 (-1) false) [] = true := by decide
+
+/-! ### Stated, not proved (checked on every run by the spec oracle on the implementation and by correspondence) -/
+
+/-- Full-strength listing theorem: after every well-formed history (values of non-unique indexes free of bytes
+≤ '/'), `List(index, "", 0, -1)` is THE listing of the stored objects by (value, id). Missing: the lemma that the
+`Seek`/`Next`-while-`HasPrefix` scan of a sorted bucket is the filter by prefix, that `kvPut`/`kvDel` keep the
+bucket sorted, and the order isomorphism between `value ++ "/" ++ id` and the pair (value, id). -/
+def index_listing_stmt : Prop :=
+  ∀ (c : Cfg), c.wf = true → c.uniqueOnIdOnly = true → ∀ (ops : List Op),
+    (∀ op ∈ ops, op.isRebuild = false ∧ ∀ o, op.obj? = some o →
+        (c.wfObj o = true ∧ ∀ i ∈ c.indexes, Index.wfObj i o = true)) →
+    ∃ m, absRun c ops [] [] = some m ∧
+      ∀ i ∈ c.indexes, ∃ l, list c (run c ops) i.name [] 0 (-1) false = .ok l ∧ IsListing i.sel m l
+
+/-- `Rebuild` is the identity on every reachable state (the indexes are a function of the data area). -/
+def rebuild_identity_stmt : Prop :=
+  ∀ (c : Cfg), c.wf = true → c.uniqueOnIdOnly = true → ∀ (ops : List Op),
+    (∀ op ∈ ops, op.isRebuild = false ∧ ∀ o, op.obj? = some o → c.wfObj o = true) →
+    step c (run c ops) (.rebuild .none) = (run c ops, none)
 
 end Kap.Props.C15
